@@ -41,4 +41,21 @@ pub fn c03_keygen_salt(seed: &[u8])
     let sk = SecretKey::from_hash(seed);
     assert(KEYGEN_SALT_spec() =~= ietf_keygen_salt());
     assert(sk.0 == hs(seed@, ietf_keygen_salt()));
+    // every seed-derived entry point is the SAME construction: (message = seed, salt = KeyGen salt)
+    let sk2 = BlsSignature::secret_key_from_hash(seed);
+    assert(sk2.0 == sk.0);
+    let e1 = SecretKeyEnum::from_hash(Bls12381::G1, seed);
+    let e2 = SecretKeyEnum::from_hash(Bls12381::G2, seed);
+    assert(ske_scalar(e1) == sk.0 && ske_scalar(e2) == sk.0 && ske_curve(e1) == Bls12381::G1 && ske_curve(e2) == Bls12381::G2);
+}
+/// keys drawn from a generator: 32 drawn bytes as the seed of the same construction
+pub fn c03_keygen_from_rng(r1: ChaCha20Rng, r2: ChaCha20Rng, r3: ChaCha20Rng)
+{
+    let ghost s1 = r1.st(); let ghost s2 = r2.st(); let ghost s3 = r3.st();
+    let a = SecretKey::random(r1);
+    let b = BlsSignature::random_secret_key(r2);
+    let c = SecretKeyEnum::random(Bls12381::G2, r3);
+    assert(a.0 == hs(draw_bytes(s1, 32), ietf_keygen_salt()));
+    assert(b.0 == hs(draw_bytes(s2, 32), ietf_keygen_salt()));
+    assert(ske_scalar(c) == hs(draw_bytes(s3, 32), ietf_keygen_salt()) && ske_curve(c) == Bls12381::G2);
 }
